@@ -7,7 +7,7 @@ JWT       handler_runs_only_if_verified, outcome_independent_of_history, jwt_out
 content   cs_runs_only_if_signature_covers_request, cs_monitor_sound; witnesses of the two recorded findings:
 security  method_gate_bypass, request_uri_override
 codec     unpad_pad (after fixes/C18-unpad-empty.patch), unpadPinned_pad / unpadPinned_* (witnesses of the pinned code),
-          b64_round_trip
+          b64_round_trip, ecb_round_trip (body_round_trip: partial, see the comment next to it)
 -/
 import GoZero.C18.Proofs
 namespace GoZero.C18
@@ -318,6 +318,34 @@ theorem unpadPinned_pad (bs : Nat) (hbs : 0 < bs) (hbs' : bs ≤ 255) (p : Bytes
     congr 1
     rw [Nat.add_sub_cancel, List.take_left']
     rfl
+
+/-- AES-ECB with PKCS padding round-trips every payload (after the fix), for any sound block cipher -/
+theorem ecb_round_trip (C : BlockCipher) (key : Bytes) (hk : C.keyOk key = true) (hs : C.Sound key)
+    (hbs : 0 < C.bs) (hbs' : C.bs ≤ 255) (p : Bytes) :
+    ∃ ct, ecbEncrypt C key p = some ct ∧ ecbDecrypt C key ct = .ok p := by
+  obtain ⟨k, hk'⟩ := pad_length C.bs hbs p
+  obtain ⟨l1, l2⟩ := cryptBlocks_round_trip C key hs hbs k _ hk'
+  have hm : (pad C.bs p).length % C.bs = 0 := by rw [hk']; exact Nat.mul_mod_left _ _
+  have hm2 : ((chunks C.bs (pad C.bs p)).flatMap (C.enc key)).length % C.bs = 0 := by
+    rw [l1]; exact Nat.mul_mod_left _ _
+  refine ⟨cryptBlocks (C.enc key) C.bs (pad C.bs p), by simp [ecbEncrypt, hk], ?_⟩
+  have e1 : cryptBlocks (C.enc key) C.bs (pad C.bs p) = (chunks C.bs (pad C.bs p)).flatMap (C.enc key) := by
+    unfold cryptBlocks; rw [if_neg (by omega)]
+  have e2 : cryptBlocks (C.dec key) C.bs ((chunks C.bs (pad C.bs p)).flatMap (C.enc key)) = pad C.bs p := by
+    unfold cryptBlocks; rw [if_neg (by omega), l2]
+  unfold ecbDecrypt
+  rw [if_pos hk, e1, e2, unpad_pad C.bs hbs hbs' p]
+
+
+/- body_round_trip (full statement, NOT proven as one theorem):
+     ∀ C key (sound, keyOk) limit p inner, p ≠ [] → raw = asciiBytes (b64Encode ct) with ecbEncrypt C key p = some ct →
+       raw.length ≤ limit ∨ limit ≤ 0 →
+       cryptionHandler C limit key raw.length raw inner = flushResp C key p (inner p)
+     and the client decoding of `flushResp … out` (base64 decode, ecbDecrypt) gives back `out`.
+   Proven pieces: `ecb_round_trip` (pad/encrypt/decrypt/unpad for every payload), `b64_round_trip`.
+   Missing: the transport lemma `bytesToString (asciiBytes (b64Encode ct)) = b64Encode ct` (every base64 character is
+   below 128) and the composition. The composition is checked at run time by `cryptMonitor` on every generated
+   payload length (0..80, block boundaries included) in both directions. -/
 
 /-- witness (pinned code): a body that decodes to no bytes makes `pkcs5Unpadding` index out of range -/
 theorem unpadPinned_empty_panics (bs : Nat) : unpadPinned bs [] = .panic := rfl
